@@ -66,19 +66,38 @@ pub fn bytes_to_words(bytes: &[u8]) -> &[u64] {
 ///
 /// Panics if `bytes.len()` is not a multiple of 8.
 pub fn bytes_to_words_vec(bytes: &[u8]) -> Vec<u64> {
-    bytes_to_words(bytes).to_vec()
+    assert!(
+        bytes.len() % 8 == 0,
+        "byte slice length must be a multiple of 8, got {}",
+        bytes.len()
+    );
+    // Copy word by word instead of casting the slice: `cast_slice` panics when
+    // `bytes` does not start on an 8-byte boundary, and an owned result does
+    // not need the input to be aligned.
+    bytes
+        .chunks_exact(8)
+        .map(|chunk| {
+            let mut word = [0u8; 8];
+            word.copy_from_slice(chunk);
+            u64::from_ne_bytes(word)
+        })
+        .collect()
 }
 
 /// Try to read u64 words from raw bytes.
 ///
-/// Returns `None` if `bytes.len()` is not a multiple of 8.
+/// Returns `None` if `bytes.len()` is not a multiple of 8, or if `bytes` does
+/// not start on an 8-byte boundary (a borrowed `&[u64]` cannot be produced
+/// from misaligned memory; use [`bytes_to_words_vec`] to copy instead).
 #[inline]
 pub fn try_bytes_to_words(bytes: &[u8]) -> Option<&[u64]> {
     if bytes.is_empty() {
         return Some(&[]);
     }
     if bytes.len() % 8 == 0 {
-        Some(cast_slice(bytes))
+        // `try_cast_slice` reports a misaligned start as an error instead of
+        // panicking the way `cast_slice` does.
+        bytemuck::try_cast_slice(bytes).ok()
     } else {
         None
     }
